@@ -1078,6 +1078,23 @@ func zvC14DenseProbes() []zvC14Pfx {
 				out = append(out, zvC14Flip(p))
 			}
 		}
+		// the base with exactly one bit changed ANYWHERE, at full length and (IPv6) at two lengths beyond the 64-bit word
+		// boundary: more specific in length than every shorter pattern, but outside it when the changed bit lies within the pattern
+		lens := []int{len(base)}
+		if fam == 6 {
+			lens = []int{72, 96, 128}
+		}
+		for i := 0; i < len(base); i++ {
+			b := "1"
+			if base[i] == '1' {
+				b = "0"
+			}
+			for _, l := range lens {
+				if l > i+1 {
+					out = append(out, zvC14Pfx{fam, base[:i] + b + base[i+1:l]})
+				}
+			}
+		}
 	}
 	return out
 }
@@ -1128,7 +1145,7 @@ func TestVerifC14(t *testing.T) {
 	r := vh.Start(t, "C14")
 	defer r.Finish()
 	r.Rule("matcher layer: every pattern (2 base addresses truncated at every length 0..32 / 0..128) x 17 matchers (exact, orlonger, longer, 14 ranges) as route filter, and as plain prefix list, " +
-		"x 322 dense probes (every length + every sibling, both families incl. the other family); chain layer: every sequence of 1..3 terms of the catalogue (quick: 3-term sequences over the core catalogue; thorough: over the wide one) " +
+		"x dense probes (every length + every sibling + the base with any single bit changed at full length and beyond the 64-bit boundary, both families incl. the other family); chain layer: every sequence of 1..3 terms of the catalogue (quick: 3-term sequences over the core catalogue; thorough: over the wide one) " +
 		"x every split into 1..3 filters x chain probes (each pattern, parent, sibling, children, unrelated, host; IPv4+IPv6) x 5 paths; equal layer: every ordered pair of 1-term chains and of selected 2-term chains over the full catalogue, " +
 		"built from separate objects, x all chain-layer inputs when Equal says true; evaluations = (chain,input) evaluations + pairs compared")
 	r.Require(zvC14Required...)
